@@ -19,7 +19,7 @@ TraceInit == /\ S = InitS(NoProg, 1) /\ M = MonInit(NoProg) /\ last = [a |-> "in
 
 Reset ==
   /\ S' = InitS(Line.act.prog, Line.act.n)
-  /\ SS' = { InitS(Line.act.prog, Line.act.n) }
+  /\ SS' = { InitSx(Line.act.prog, Line.act.n, fx) : fx \in BOOLEAN }   \* either variant of the gate may explain the trace
   /\ M' = MonInit(Line.act.prog)
   /\ last' = [a |-> "init"]
   /\ div' = FALSE
@@ -29,7 +29,7 @@ Cands(s, t, inv) ==
          ELSE {s} \cup Acts(s, t)
 
 \* internal state read by the harness after the step (flush flag, buffered lines, lock holders, ring)
-Peek(y, x) == /\ y.fl = x.fl /\ Len(y.buf) = x.nbuf /\ (y.wr # 0) = x.wr /\ (y.rd > 0) = x.rd
+Peek(y, x) == /\ y.fl = x.fl /\ Len(y.buf) = x.nbuf /\ (y.wr # 0 \/ y.rd > 0) = x.lk
               /\ y.logs = x.logs /\ y.idx = x.idx /\ y.reg = x.reg /\ (y.rl # 0) = x.rl
 
 ConfSucc(s) ==
